@@ -271,6 +271,14 @@ class Engine:
             self.assume_byte_range(st, b.arr, b.off, b.len)
         return b
 
+    def assume_val_invariant(self, st, v):
+        """type invariant of a value of unknown type: if it is a bytes object its elements are byte values and its
+        length is non-negative"""
+        j = t.var('i!', t.INT)
+        arr, off, ln = t.app('barr', t.ARR, v), t.app('boff', t.INT, v), t.app('blen', t.INT, v)
+        body = t.implies(t.and_(t.le(off, j), t.lt(j, t.add(off, ln))), t.and_(t.le(t.ZERO, t.select(arr, j)), t.lt(t.select(arr, j), I(256))))
+        st.assume(t.implies(t.app('(_ is VBytes)', t.BOOL, v), t.and_(t.ge(ln, t.ZERO), t.forall([j], body, pats=[[t.select(arr, j)]]))))
+
     def fresh_bytes(self, st, base='bytes', ln=None):
         arr = fresh(base + '_arr', t.ARR)
         ln = ln if ln is not None else fresh(base + '_len', t.INT)
